@@ -45,6 +45,14 @@ Full statement / proved / missing
                            the default format `%D-%H:%M:%S.%-N` as timespantype.go prints and parses it, proved to
                            invert for every number of nanoseconds (`C10_span_codec`); Regexp = the identity on the
                            pattern source (that is what the code does; only "the source compiles" is outside).
+* read with care (audit): the stream laws hold "for every value" of the MODEL's value type, including the matrix cells
+                           the model does not render faithfully (`V.disp` of a float / container used as a non-string key
+                           with rich_data=false and no complex keys is the placeholder "?float"/"?array"/"?hash"; `V.dispOk`
+                           is false there and those cells run on the implementation only): there the laws are true of the
+                           model but say nothing about the code.  `r.abs = v.abs` compares content only — that a shared
+                           object comes back shared is not claimed.  For SemVer/SemVerRange/Timestamp/URI/type text the
+                           round trip is built into `decodeLeaf` (the decoder returns the payload): a restatement for
+                           those leaves; Binary and Timespan are real codecs.
 * `C10_arms_ok`          — obligation over the table regenerated from serializer.go (second tie): the emit discipline the
                            model executes is the code's; `C10_impl_*` are the theorems instantiated on that table.
 * missing: that the deserializer REGISTERS type definitions that arrive in the stream (`newTypes`, `AddTypes`; the
@@ -195,6 +203,33 @@ example : ∃ d vals', collect (serialize ⟨true, true, 2⟩ ⟨false, false, 0
   · cases hr
   · rename_i d vals' hc
     exact ⟨d, vals', hc, by simpa using collect_len _ _ _ _ hc⟩
+
+/-! ### audit additions (stranger's review, notes/audit-C10.md): the laws are discriminating, the hypotheses needed -/
+
+/-- the capability laws are not trivially true: handed to a consumer WITH binary and complex-key support the same value
+    produces a Binary event and a non-string key, which `wf true true` rejects -/
+example : (serialize ⟨true, true, 2⟩ ⟨true, true, 0⟩ sampleDag).wf true true = false ∧
+    (serialize ⟨true, true, 2⟩ ⟨true, false, 0⟩ sampleDag).wf false true = false ∧
+    (serialize ⟨true, true, 2⟩ ⟨false, true, 0⟩ sampleDag).wf true false = false := by decide
+
+/-- `expand` (what a back-reference means) is discriminating: a forward reference, a reference to the enclosing, still
+    open container and a dangling one are all rejected; a backward one is replaced by what stood there -/
+example : expand (.arr [.ref 1, .add (.int 1)]) [] = none ∧ expand (.arr [.ref 0]) [] = none ∧
+    expand (.arr [.add (.int 1), .ref 2]) [] = none := ⟨rfl, rfl, rfl⟩
+example : (expand (.arr [.arr [.add (.int 1)], .ref 1]) []).map (·.1) =
+    some (.arr [.arr [.add (.int 1)], .arr [.add (.int 1)]]) := rfl
+
+/-- … and `C10_refs_wellformed` is about streams that do contain references: with and without local_reference the
+    streams of the sample differ -/
+example : (serialize ⟨true, true, 2⟩ ⟨false, false, 0⟩ sampleDag).beq (serialize ⟨true, false, 2⟩ ⟨false, false, 0⟩ sampleDag) = false := by
+  decide
+
+/-- the hypothesis `Shared` is needed: one identity carrying two different contents (not a value the op syntax can
+    write: one Go object has one content) fails the check, and its second occurrence comes back as the first -/
+def incoherent : V := .arr 1 [.arr 2 [.int 1], .arr 2 [.int 2]]
+example : sharedB (mkCfg ⟨true, true, 2⟩ ⟨true, true, 0⟩) incoherent = false ∧ incoherent.noRes = true := by decide
+example : ∃ r, deserialize (serialize ⟨true, true, 2⟩ ⟨true, true, 0⟩ incoherent) = .ok r ∧ r.abs ≠ incoherent.abs :=
+  ⟨.arr 0 [.arr 1 [.int 1], .arr 1 [.int 1]], rfl, by simp [V.abs, absList, incoherent]⟩
 
 /-! ### What `Frag` excludes, exactly
 
